@@ -7,38 +7,33 @@ open Ebv.Ebpf Ebv.Gen
 variable {σ : State}
 
 theorem toPy_rep {x : FVal} {px : PyVal} {q : Rat} {f : Bool} (h : RepV σ x q f) (hp : toPy x = some px) :
-    f = false ∧ (px.evalZ σ : Rat) = q ∧ px ≠ .none ∧ (∀ e, px = .ex e → x = .ex e false) := by
+    f = false ∧ (px.evalZ σ : Rat) = q := by
   cases x with
   | int c =>
     simp only [toPy, Option.some.injEq] at hp; subst hp
-    exact ⟨h.2, h.1.symm, by simp, fun e he => by cases he⟩
+    exact ⟨h.2, h.1.symm⟩
   | dec n => simp [toPy] at hp
   | ex e fe =>
     cases fe
     · simp only [toPy, Option.some.injEq] at hp; subst hp
       obtain ⟨h1, h2, _⟩ := h
-      refine ⟨h1.symm, ?_, by simp, fun e' he => by cases he; rfl⟩
+      refine ⟨h1.symm, ?_⟩
       simp only [Rep, scale, Bool.false_eq_true, if_false] at h2
       simp only [PyVal.evalZ, h2]; grind
     · simp [toPy] at hp
-  | none => exact h.elim
 
 theorem tyOp_toS {op : FOp} {sop : SOp} (h : op.toS = some sop) : tyOp op false false = false := by
   cases op <;> simp [FOp.toS] at h <;> rfl
 
-theorem toS_sub {op : FOp} {sop : SOp} (h : op.toS = some sop) : (sop == .sub) = (op == .sub) := by
-  cases op <;> simp [FOp.toS] at h <;> subst h <;> rfl
-
 /-- **one node**: integer-only nodes are `Gen`'s (C01's `pyOp_evalZ`), every other node is `fNode_rep` -/
 theorem fOp_rep (op : FOp) (x y v : FVal) (qa qb : Rat) (fa fb : Bool)
-    (hx : RepV σ x qa fa) (hy : RepV σ y qb fb) (h : fOp op x y = .ok v) (hn : v ≠ .none)
-    (hsm : fSumMinusNode op x y = false) (hrf : rfdNode op x y = false) :
+    (hx : RepV σ x qa fa) (hy : RepV σ y qb fb) (h : fOp op x y = .ok v) (hrf : rfdNode op x y = false) :
     RepV σ v (opQ op fa fb qa qb) (tyOp op fa fb) := by
   unfold fOp at h
   split at h
   · rename_i sop px py h1 h2 h3
-    obtain ⟨hfa, hqa, hxn, hxe⟩ := toPy_rep hx h2
-    obtain ⟨hfb, hqb, hyn, hye⟩ := toPy_rep hy h3
+    obtain ⟨hfa, hqa⟩ := toPy_rep hx h2
+    obtain ⟨hfb, hqb⟩ := toPy_rep hy h3
     subst hfa; subst hfb
     cases hr : pyOp sop px py with
     | error e => rw [hr] at h; cases h
@@ -46,59 +41,26 @@ theorem fOp_rep (op : FOp) (x y v : FVal) (qa qb : Rat) (fa fb : Bool)
       rw [hr] at h
       simp only [bind, Except.bind, pure, Except.pure, Except.ok.injEq] at h
       subst h
-      have hrn : r ≠ .none := by intro hh; subst hh; exact hn rfl
-      have hnode : sumMinusNode sop px py = false := by
-        cases px with
-        | ex l =>
-          cases py with
-          | ex r' =>
-            have ex := hxe l rfl; have ey := hye r' rfl
-            subst ex; subst ey
-            simpa [sumMinusNode, fSumMinusNode, toS_sub h1] using hsm
-          | _ => simp [sumMinusNode]
-        | _ => simp [sumMinusNode]
-      have hz := pyOp_evalZ σ sop px py r hr hrn hnode
+      have hz := pyOp_evalZ σ sop px py r hr
       have hq : (r.evalZ σ : Rat) = opQ op false false qa qb := by
         rw [hz, opQ_int op sop h1, hqa, hqb]
       rw [tyOp_toS h1]
       cases r with
-      | none => exact absurd rfl hrn
       | int c => exact ⟨hq.symm, rfl⟩
       | ex e =>
         refine ⟨rfl, ?_, fun hh => by cases hh⟩
         simp only [Rep, scale, Bool.false_eq_true, if_false]
         rw [show evalZ σ e = (PyVal.ex e).evalZ σ from rfl, hq]; grind
-  · rename_i hno
-    apply fNode_rep op x y v qa qb fa fb hx hy h hsm hrf
-    intro l fl c hop ex ey
-    subst hop; subst ex; subst ey
-    cases fl
-    · exact (hno .sub (.ex l) (.int c) rfl rfl rfl).elim
-    · rfl
+  · exact fNode_rep op x y v qa qb fa fb hx hy h hrf
 
-theorem fOp_args (op : FOp) (x y v : FVal) (h : fOp op x y = .ok v) : x ≠ .none ∧ y ≠ .none := by
-  unfold fOp at h
-  split at h
-  · rename_i sop px py h1 h2 h3
-    cases hr : pyOp sop px py with
-    | error e => rw [hr] at h; cases h
-    | ok r =>
-      obtain ⟨a, b⟩ := pyOp_args sop px py r hr
-      constructor
-      · intro hh; subst hh; simp only [toPy, Option.some.injEq] at h2; exact a h2.symm
-      · intro hh; subst hh; simp only [toPy, Option.some.injEq] at h3; exact b h3.symm
-  · constructor
-    · intro hh; subst hh; simp [fNode, typeError] at h
-    · intro hh; subst hh; cases x <;> simp [fNode, typeError] at h
-
-/-- the node is `Sum - x` or `float // non-fixed` -/
+/-- the node is `float // non-fixed` -/
 def nodeBad (env : FEnv) (op : FOp) (a b : FExpr) : Bool :=
   match elabF env a, elabF env b with
-  | .ok x, .ok y => fSumMinusNode op x y || rfdNode op x y
+  | .ok x, .ok y => rfdNode op x y
   | _, _ => false
 
-/-- surface side conditions (decidable): decimal literals `n / 10^5` with `|n| < 2^51`; no `Sum - x` node (class
-*sum-minus*), no `float // non-fixed expression` node -/
+/-- surface side conditions (decidable): decimal literals `n / 10^5` with `|n| < 2^51`; no `float // non-fixed
+expression` node.  (`Sum - x` nodes, formerly class *sum-minus*, are inside since `Sum.__sub__` was repaired.) -/
 def FExpr.ok (env : FEnv) : FExpr → Bool
   | .dec n => decide (n.natAbs < 2 ^ 51)
   | .bin op a b => a.ok env && b.ok env && !nodeBad env op a b
@@ -111,26 +73,26 @@ protocol yields a value whose `fixed` attribute is the static type of the expres
 (`evalZ`, C01) is the exact rational value `semQ` — scaled by `FIXED_BASE` exactly when the type is fixed.  The
 elaboration therefore inserts exactly the scale factors needed, one per mixed node, `FIXED_BASE²` for int / fixed. -/
 theorem elabF_rep (env : FEnv) (σ : State) : ∀ (s : FExpr) (v : FVal), s.ok env = true → elabF env s = .ok v →
-    v ≠ .none → RepV σ v (s.semQ env σ) (s.isFixed env) := by
+    RepV σ v (s.semQ env σ) (s.isFixed env) := by
   intro s
   induction s with
-  | int c => intro v _ h _; simp only [elabF, pure, Except.pure, Except.ok.injEq] at h; subst h; exact ⟨rfl, rfl⟩
+  | int c => intro v _ h; simp only [elabF, pure, Except.pure, Except.ok.injEq] at h; subst h; exact ⟨rfl, rfl⟩
   | dec n =>
-    intro v hok h _
+    intro v hok h
     simp only [elabF, pure, Except.pure, Except.ok.injEq] at h; subst h
     exact ⟨rfl, rfl, by simpa [FExpr.ok] using hok⟩
   | reg view no =>
-    intro v _ h _
+    intro v _ h
     simp only [elabF, pure, Except.pure, Except.ok.injEq] at h; subst h
     refine ⟨rfl, ?_, fun hh => by cases hh⟩
     simp only [Rep, scale, evalZ, FExpr.semQ, Bool.false_eq_true, if_false]; grind
   | xreg no =>
-    intro v _ h _
+    intro v _ h
     simp only [elabF, pure, Except.pure, Except.ok.injEq] at h; subst h
     refine ⟨rfl, ?_, fun _ => rfl⟩
     simp only [Rep, scale, evalZ, viewZ, FExpr.semQ, if_true, SQ_eq]; grind
   | var name =>
-    intro v _ h _
+    intro v _ h
     simp only [elabF] at h
     cases hl : lookupVar env.locs name with
     | none => rw [hl] at h; cases h
@@ -143,7 +105,7 @@ theorem elabF_rep (env : FEnv) (σ : State) : ∀ (s : FExpr) (v : FVal), s.ok e
       simp only [Rep, scale, FExpr.semQ, hl, hz]
       cases env.fx.contains name <;> simp only [Bool.false_eq_true, if_false, if_true, SQ_eq] <;> grind
   | bin op a b iha ihb =>
-    intro v hok h hn
+    intro v hok h
     simp only [FExpr.ok, Bool.and_eq_true, Bool.not_eq_true'] at hok
     simp only [elabF, bind, Except.bind] at h
     cases hx : elabF env a with
@@ -156,9 +118,8 @@ theorem elabF_rep (env : FEnv) (σ : State) : ∀ (s : FExpr) (v : FVal), s.ok e
       | ok y =>
         rw [hy] at h
         simp only [] at h
-        obtain ⟨hxn, hyn⟩ := fOp_args op x y v h
         have hb := hok.2
-        simp only [nodeBad, hx, hy, Bool.or_eq_false_iff] at hb
-        exact fOp_rep op x y v _ _ _ _ (iha x hok.1.1 hx hxn) (ihb y hok.1.2 hy hyn) h hn hb.1 hb.2
+        simp only [nodeBad, hx, hy] at hb
+        exact fOp_rep op x y v _ _ _ _ (iha x hok.1.1 hx) (ihb y hok.1.2 hy) h hb
 
 end Ebv.GenFixed
